@@ -2,6 +2,7 @@
 EXTENDS AddrMapM
 N2 == {"n1", "n2"}
 A2 == [n \in N2 |-> IF n = "n1" THEN {"a1", "a2"} ELSE {"b1", "b2"}]
+A2S == [n \in N2 |-> IF n = "n1" THEN {"a1", "s"} ELSE {"b1", "s"}]      \* one address shared by both names
 N1 == {"n1"}
 A1 == [n \in N1 |-> {"a1", "a2"}]
 Off == {-1, 1, 2, 3}
